@@ -176,4 +176,39 @@ Protected(test, program)   == SkipProtected(test) \/ FilteredOut(test, program)
 
 Deleting == CleanDeletes(mode.ci, mode.updvar)
 
+(***************************************************************************)
+(* Clean as a transition.  Without a -run filter and on files that are      *)
+(* sequences of frames the relational judgement of TraceSeq!TraceClean      *)
+(* leaves exactly one post state; CClean is that state, so that the         *)
+(* contract is a closed state machine (record / replay / update / Clean     *)
+(* over several processes) that TLC can explore (MC_ContractClean.tla).     *)
+(*   srt    the Sort option                                                 *)
+(*   protS  standalone files whose owning test is protected (the owner of   *)
+(*          a standalone file is known to whoever knows the program)        *)
+(***************************************************************************)
+TestOfHdr(h) == NameOfId(IdOfHeader(h))
+PathDir(p) ==
+  LET idx == {i \in 1..Len(p) : Char(p, i) = "/"}
+  IN  IF idx = {} THEN "" ELSE SubSeq(p, 1, (CHOOSE i \in idx : \A j \in idx : j <= i) - 1)
+HdrLess(a, b) == NaturalLess(IdOfHeader(a), IdOfHeader(b))
+
+\* entries of used files nobody addressed and nobody protects
+StaleM == {k \in DOMAIN slot : k[1] \in usedF /\ k \notin addrM /\ ~SkipProtected(TestOfHdr(k[2]))}
+\* whole multi-entry files directly inside a visited directory that no call used
+StaleF == {p \in DOMAIN order : /\ p \notin usedF /\ PathDir(p) \in visitedD
+                                 /\ ~\E i \in DOMAIN order[p] : SkipProtected(TestOfHdr(order[p][i]))}
+StaleS(protS) == {p \in DOMAIN alone : p \notin addrS /\ PathDir(p) \in visitedD /\ p \notin protS}
+
+CClean(srt, protS) ==
+  LET gone  == IF Deleting THEN StaleM \cup {k \in DOMAIN slot : k[1] \in StaleF} ELSE {}
+      goneF == IF Deleting THEN StaleF ELSE {}
+      goneS == IF Deleting THEN StaleS(protS) ELSE {}
+      left(p) == SelectSeq(order[p], LAMBDA h : <<p, h>> \notin gone)
+      sorts == CleanSorts(mode.ci, srt)
+  IN  /\ slot'  = Del(slot, gone)
+      /\ alone' = Del(alone, goneS)
+      /\ order' = [p \in DOMAIN order \ goneF |->
+                     IF sorts /\ p \in usedF THEN SortSeq(left(p), HdrLess) ELSE left(p)]
+      /\ UNCHANGED <<mode, ord, sord, sused, addrM, addrS, usedF, visitedD, cnt, nskip, ran, skipSet, fmtOf, alias>>
+
 =============================================================================
